@@ -57,7 +57,7 @@ MANIFEST = {
             'forms, explicit/default targets, absolute/relative/file:// '
             'paths, nested target dirs, names with spaces, directories, '
             'missing sources, blocked targets, host-qualified URLs, task '
-            'outcomes DONE/FAILED with/without stage_on_error, custom task '
+            'outcomes DONE/FAILED/CANCELED with/without stage_on_error, custom task '
             'sandboxes) go through real Task construction, real sandbox '
             'assignment and the real tmgr/agent input and output stagers with '
             'the local backend.  After input staging and after the final '
@@ -95,8 +95,10 @@ ASSUMPTIONS = [
     'are inside the domain',
     'TARBALL is generated for input staging only (no output-side tarball code '
     'exists); DOWNLOAD and endpoint:// are outside the property text',
-    'FAILED tasks with stage_on_error: only observed (the property forbids '
-    'staging without the flag, it does not require it with the flag)',
+    'FAILED / CANCELED tasks with stage_on_error: only observed (the property '
+    'forbids staging without the flag, it does not require it with the flag); '
+    'a CANCELED task with the flag and an infeasible output directive may end '
+    'FAILED',
     'directories are generated as sources of TRANSFER/COPY/MOVE only '
     '(os.link cannot link directories) with non-existing targets',
     'an unwritable target is emulated by a regular file in the place of a '
@@ -597,7 +599,8 @@ def gen_case(rng, idx):
         task = {'uid'           : uid,
                 'sandbox'       : rng.choice(['default'] * 7 + ['named'] * 2 +
                                              ['abs'] + sorted(NAMED_FORMS)),
-                'outcome'       : rng.choice([rps.DONE] * 2 + [rps.FAILED]),
+                'outcome'       : rng.choice([rps.DONE] * 4 + [rps.FAILED] * 2 +
+                                             [rps.CANCELED]),
                 'stage_on_error': rng.random() < 0.35,
                 'inputs'        : list(),
                 'outputs'       : list()}
@@ -1217,7 +1220,8 @@ def _run_case(case, res, root, orc, pipe):
                 return
         td['state']        = rps.AGENT_STAGING_OUTPUT_PENDING
         td['target_state'] = t['outcome']
-        td['exit_code']    = 0 if t['outcome'] == rps.DONE else 1
+        td['exit_code']    = 0 if t['outcome'] == rps.DONE else \
+                             None if t['outcome'] == rps.CANCELED else 1
         td['stdout']       = ''
         td['stderr']       = ''
         res.see('outcomes', '%s/%s' % (t['outcome'], t['stage_on_error']))
@@ -1255,7 +1259,7 @@ def _run_case(case, res, root, orc, pipe):
         finals = pipe.finals(uid)
         staged = t['outcome'] == rps.DONE or t['stage_on_error']
 
-        if t['outcome'] == rps.FAILED: expected = rps.FAILED
+        if t['outcome'] != rps.DONE  : expected = t['outcome']
         elif bad                     : expected = rps.FAILED
         else                         : expected = rps.DONE
 
@@ -1274,6 +1278,13 @@ def _run_case(case, res, root, orc, pipe):
             res.count('infeasible_checked', len(bad))
             for d in bad:
                 res.see('infeasible_out', '%s/%s' % (d['action'], d['fault']))
+
+        if t['outcome'] == rps.CANCELED and t['stage_on_error'] and bad \
+                                        and finals == {rps.FAILED}:
+            # the canceled task asked for its outputs, one of them cannot be
+            # staged: ending FAILED is what the directive's failure demands
+            res.count('canceled_task_failed_by_output')
+            finals = {expected}
 
         if finals != {expected}:
             if expected == rps.FAILED and t['outcome'] == rps.DONE:
@@ -1295,7 +1306,8 @@ def _run_case(case, res, root, orc, pipe):
                                 % (uid, sorted(finals), pipe.excs.get(uid)))
             else:
                 violation('failed-task-not-failed',
-                          '%s ran FAILED but ended %s' % (uid, sorted(finals)))
+                          '%s ran %s (stage_on_error %s, infeasible %d) but ended %s'
+                          % (uid, t['outcome'], t['stage_on_error'], len(bad), sorted(finals)))
             continue
 
         if expected == rps.DONE:
@@ -1307,8 +1319,8 @@ def _run_case(case, res, root, orc, pipe):
                 for mech, msg in check_target(d, 'out', t, orc, root):
                     violation(mech, '%s: %s' % (uid, msg), directive=d)
 
-        elif t['outcome'] == rps.FAILED and not t['stage_on_error']:
-            # no output staging for a failed task
+        elif t['outcome'] != rps.DONE and not t['stage_on_error']:
+            # no output staging for a failed (or canceled) task
             if any_bad:
                 res.count('bystanders_checked')
             for d in t['outputs']:
@@ -1319,13 +1331,13 @@ def _run_case(case, res, root, orc, pipe):
                        (d['chain'] is None and
                         fingerprint(src) != expected_print(d))):
                     violation('failed-task-output-staged',
-                              '%s ran FAILED without stage_on_error but its '
+                              '%s did not run DONE, has no stage_on_error, but its '
                               'output %s directive %s was carried out: %s '
                               'exists / source moved'
                               % (uid, d['action'], d['tag'],
                                  os.path.relpath(tgt, root)), directive=d)
 
-        elif t['outcome'] == rps.FAILED:
+        elif t['outcome'] != rps.DONE:
             for d in t['outputs']:
                 if d['fault'] is None:
                     done = fingerprint(orc.target(d, 'out', t)) is not None
